@@ -71,6 +71,11 @@ def in_domain(sym, rule, kind, v):
         return True
     if rule == "str":
         return kind == "str"
+    if rule == "text-or-none":
+        # a text field that may be left unset: None is "unset" (what a writer does with it is its own business), anything else must be text
+        if kind == "none":
+            return None
+        return kind == "str"
     if rule == "str-nonblank":
         return kind == "str" and len(v) >= 1
     if rule == "bool":
